@@ -275,6 +275,10 @@ def write_evidence(ctx, violations, level_note_extra=None):
     for k, v in ctx.extra.items():
         if k != "rule":
             cov[k] = v
+    if ctx.discharged == 0:
+        # nothing was discharged on this run (broken build): do not present proof-level counts
+        cov["obligations_total"] = cov.pop("obligations")
+        cov.pop("discharged")
     ev = {
         "property_id": ctx.prop,
         "tier": ctx.tier,
